@@ -302,8 +302,9 @@ fn doc_and_paths(src: &mut Src, p: &DocParams, stress: bool) -> (Vec<u8>, Vec<Ve
 pub fn run(ctx: &Ctx) {
     let subs = subs();
     let p = DocParams { ws: 1, max_depth: 4, max_items: 5, long_strings: true, ..DocParams::default() };
-    for (label, stress) in [("generated", false), ("skip-stress", true)] {
-        let pc = p.clone();
+    for (label, stress) in [("generated", false), ("skip-stress", true), ("dup-keys", false)] {
+        let mut pc = p.clone();
+        pc.dup_keys = label == "dup-keys";
         ctx.search(&subs[0], label, ctx.n(200_000, 3_000_000), 700, &move |src: &mut Src| {
             let (doc, paths) = doc_and_paths(src, &pc, stress);
             let mut m = gens::mutate(src, &doc).0;
